@@ -2012,6 +2012,12 @@ def irdl_op_arg_definition(
         variadics_encountered = 0
         num_defs = len(defs)
 
+        if not num_variadics:
+            # Without variadic definitions the option has no effect
+            for arg_idx, (arg_name, _) in enumerate(defs):
+                new_attrs[arg_name] = BeforeVariadicSingleAccessor(construct, arg_idx)
+            return
+
         for arg_idx, (arg_name, arg_def) in enumerate(defs):
             if isinstance(arg_def, VariadicDef):
                 if isinstance(arg_def, OptionalDef):
